@@ -115,7 +115,8 @@ func VH_C18_query() {
 }
 
 var vNumMenu = []string{"", "0", "12", "-3", "+7", "x", "1x", "9223372036854775807", "9223372036854775808", "-9223372036854775809",
-	"1e3", "0x10", " 5", "1.5", "true", "T", "FALSE", "t", "yes", "NaN", "Inf", "-0", "1_0", "٣"}
+	"1e3", "0x10", " 5", "1.5", "true", "T", "FALSE", "t", "yes", "NaN", "Inf", "-0", "1_0", "٣",
+	"010", "08", "-0777", "0b11", "0o7", "0X1f", "0_1", "+7", "9223372036854775808"}
 
 // VH_C18_typed: the typed accessors over a menu of texts, presence and defaults symbolic.
 func VH_C18_typed() {
